@@ -33,16 +33,16 @@ for w in W:
       fns=["postcard::varint::varint_" + w], witness="C02.K.varint.enc_" + w,
       note="|varint(n)| <= ceil(bits/7)")
     K("C02.K.varint.enc_" + w, "postcard/src/varint.rs::verif_varint", "verif_varint::enc_" + w,
-      {"C02": "D", "C01": "S", "C12": "S"}, fns=["postcard::varint::varint_" + w],
+      {"C02": "D"}, fns=["postcard::varint::varint_" + w],
       note="bit-precise witness of the same clause: all 2^bits values vs reference LEB128 (width-bounded loop, unwinding asserted)")
     K("C02.K.stub.le0_" + w, "postcard/src/varint.rs::verif_varint", "verif_varint::le0_" + w,
-      {"C02": "S", "C12": "S"}, note="discharges the Route-V stub D3 (to_le_bytes()[0] == x & 0xff)")
-V("C12.V.varint_max", "varint", "varint_max", {"C12": "D", "C02": "S", "C03": "S"}, fns=["postcard::varint::varint_max"],
+      {"C02": "S", "C12": "S", "C01": "S"}, note="discharges the Route-V stub D3 (to_le_bytes()[0] == x & 0xff)")
+V("C12.V.varint_max", "varint", "varint_max", {"C12": "D"}, fns=["postcard::varint::varint_max"],
   witness="C12.K.varint_max_table", note="varint_max::<T>() == ceil(8*size_of::<T>()/7) for every T")
 V("C03.V.max_of_last_byte", "varint", "max_of_last_byte", {"C03": "S", "C12": "S"}, fns=["postcard::varint::max_of_last_byte"],
   witness="C12.K.varint_max_table", note="max_of_last_byte::<T>() == 2^(bits mod 7) - 1")
 K("C12.K.varint_max_table", "postcard/src/varint.rs::verif_varint", "verif_varint::varint_max_table",
-  {"C12": "D", "C03": "S", "C02": "S"}, fns=["postcard::varint::varint_max", "postcard::varint::max_of_last_byte"])
+  {"C12": "D"}, fns=["postcard::varint::varint_max", "postcard::varint::max_of_last_byte"])
 V("C02.L.varint.canonical", "varint", "lemma_enc_canonical", {"C02": "D"}, kind="L",
   note="enc(n) is canonical: continuation bit on all but the last byte, last byte non-zero unless n == 0")
 V("C12.L.varint.len_bound", "varint", "lemma_enc_len_bound", {"C12": "D"}, kind="L",
@@ -52,24 +52,24 @@ V("C12.L.varint.len_lower", "varint", "lemma_enc_len_lower", {"C12": "D"}, kind=
 
 # ---------------------------------------------------------------- zig-zag (serializer.rs / deserializer.rs)
 for s in SW:
-    K("C02.K.zz.enc_" + s, "postcard/src/ser/serializer.rs::verif_zz", "verif_zz::zz_" + s, {"C02": "D", "C01": "S"},
+    K("C02.K.zz.enc_" + s, "postcard/src/ser/serializer.rs::verif_zz", "verif_zz::zz_" + s, {"C02": "D"},
       fns=["postcard::ser::serializer::zig_zag_" + s], note="zig_zag(n) == (n>=0 ? 2n : -2n-1) for all n")
-    K("C03.K.zz.dec_" + s, "postcard/src/de/deserializer.rs::verif_dec", "verif_dec::unzz_" + s, {"C03": "D", "C01": "S"},
+    K("C03.K.zz.dec_" + s, "postcard/src/de/deserializer.rs::verif_dec", "verif_dec::unzz_" + s, {"C03": "D"},
       fns=["postcard::de::deserializer::de_zig_zag_" + s], note="de_zig_zag(u) == (u even ? u/2 : -(u+1)/2) for all u")
 for w in W:
-    K("C03.K.de.take_" + w, "postcard/src/de/deserializer.rs::verif_dec", "verif_dec::dec_" + w, {"C03": "D", "C01": "S", "C04": "S"},
+    K("C03.K.de.take_" + w, "postcard/src/de/deserializer.rs::verif_dec", "verif_dec::dec_" + w, {"C03": "D"},
       fns=["postcard::de::deserializer::Deserializer::try_take_varint_" + w],
       note="every byte string of length <= ceil(bits/7)+2 over de::Slice: accept/reject, value, consumed, error kind == wire-format decoder")
 
 # ---------------------------------------------------------------- storage flavours (ser/flavors.rs)
 SF = "postcard/src/ser/flavors.rs::verif_serflavor"
-K("C05.K.slice.contract", SF, "verif_serflavor::slice_contract", {"C05": "D", "C01": "S", "C20": "S"},
+K("C05.K.slice.contract", SF, "verif_serflavor::slice_contract", {"C05": "D"},
   fns=["postcard::ser::flavors::Slice::new", "postcard::ser::flavors::Slice::try_push", "postcard::ser::flavors::Slice::try_extend", "postcard::ser::flavors::Slice::finalize"],
   note="Hoare triple over a symbolic window with guard bytes: Ok iff fits, BufferFull otherwise, finalize == written prefix, frame: every unwritten byte unchanged (loop-free, full domain)")
 K("C05.K.slice.index", SF, "verif_serflavor::slice_index", {"C05": "S", "C06": "S"},
   fns=["postcard::ser::flavors::Slice::index", "postcard::ser::flavors::Slice::index_mut"],
   note="Index/IndexMut address exactly byte idx of the buffer; frame")
-K("C05.K.hvec.contract", SF, "verif_serflavor::hvec_contract", {"C05": "D", "C20": "S"}, label="bounded(B=5, blocks<=4)",
+K("C05.K.hvec.contract", SF, "verif_serflavor::hvec_contract", {"C05": "D"}, label="bounded(B=5, blocks<=4)",
   fns=["postcard::ser::flavors::HVec::try_push", "postcard::ser::flavors::HVec::try_extend", "postcard::ser::flavors::HVec::finalize"],
   note="HVec<5>: push/extend Err(BufferFull) iff it would exceed B, contents appended in order")
 K("C05.K.size.contract", SF, "verif_serflavor::size_contract", {"C05": "D"},
@@ -92,7 +92,7 @@ K("C01.K.kind.borrowed", C01M, "verif_c01::rt_borrowed", {"C01": "D"}, needs=(RE
 K("C01.K.kind.seq", C01M, "verif_c01::rt_seq", {"C01": "D"}, needs=(REF, PROBES), label="bounded(elements<=2)",
   note="heapless::Vec<u16,3> round-trips")
 for e in ["to_vec", "to_extend", "to_allocvec", "to_io", "decoders"]:
-    K("C01.K.entry." + e, C01M, "verif_c01::entry_" + e, {"C01": "D", "C11": "S"}, needs=(REF, PROBES),
+    K("C01.K.entry." + e, C01M, "verif_c01::entry_" + e, {"C01": "D"}, needs=(REF, PROBES),
       fns=["postcard::to_slice", "postcard::to_vec", "postcard::to_allocvec", "postcard::to_extend", "postcard::to_io", "postcard::from_bytes", "postcard::take_from_bytes", "postcard::from_io"],
       note="encode entry gives the same bytes as to_slice / the three decode entries agree, for every value of a probe type")
 
@@ -128,3 +128,80 @@ V("C09.L.acc.resync", "acc", "lemma_resync", {"C09": "D"}, kind="L", note="after
 V("C09.L.acc.progress", "acc", "lemma_progress", {"C09": "D"}, kind="L", note="measure 2|rem| + [idx==N] strictly decreases per call when N >= 1")
 V("C09.L.acc.documented_loop", "acc", "documented_loop", {"C09": "D"}, kind="L",
   note="exec driver of the documented feed loop verified with `decreases` against feed's contract: terminates for every N >= 1, any chunk")
+
+# ---------------------------------------------------------------- schema key hashers (postcard-schema key/hash.rs), Route V
+HS = "postcard_schema::key::hash::"
+V("C16.V.fnv.hash_update", "hash", "fnv1a64::hash_update", {"C16": "D"}, fns=[HS + "fnv1a64::hash_update"],
+  note="hash_update(state, bytes) == FNV-1a-64 fold (prime 0x100000001b3, wrapping) over bytes, all lengths")
+V("C16.V.fnv.hash_update_str", "hash", "fnv1a64::hash_update_str", {"C16": "D"}, fns=[HS + "fnv1a64::hash_update_str"], note="== fnv(state, s bytes)")
+V("C16.V.fnv.hasher_new", "hash", "Fnv1a64Hasher::new", {"C16": "S"}, fns=[HS + "Fnv1a64Hasher::new"], note="BASIS == 0xcbf29ce484222325")
+V("C16.V.fnv.hasher_digest", "hash", "Fnv1a64Hasher::digest", {"C16": "S"}, fns=[HS + "Fnv1a64Hasher::digest"])
+for f in ["hash_sdm_type", "hash_struct", "hash_variant", "hash_named_field", "hash_ty_path"]:
+    V("C16.V.hash.static." + f, "hash", "fnv1a64::" + f, {"C16": "D"}, fns=[HS + "fnv1a64::" + f],
+      note="compile-time hasher == fold spec h_* over the abstract view of the &'static schema (all trees, all depths)")
+for f in ["hash_sdm_type_owned", "hash_struct", "hash_variant", "hash_named_field", "hash_ty_path_owned"]:
+    V("C16.V.hash.owned." + f, "hash", "fnv1a64_owned::" + f, {"C16": "D"}, fns=[HS + "fnv1a64_owned::" + f],
+      note="run-time hasher == the SAME fold spec h_* over the abstract view of the owned schema")
+V("C16.L.hash.stream", "hash", "eq_ty", {"C16": "D"}, kind="L", note="fold spec == FNV-1a over the declarative tag-and-name stream st_ty (33 tags from one table)")
+for l in ["eq_data", "eq_tys", "eq_nfs", "eq_vars", "eq_nf", "eq_var"]:
+    V("C16.L.hash.stream." + l, "hash", l, {"C16": "D"}, kind="L", note="mutual induction partner of eq_ty")
+V("C16.L.hash.agree", "hash", "lemma_keys_agree", {"C16": "D"}, kind="L",
+  note="equal abstract views => compile-time key == run-time key == FNV-1a(path ++ stream)")
+V("C16.L.hash.names", "hash", "lemma_type_names_ignored", {"C16": "D"}, kind="L", note="struct/enum type names do not occur in the stream")
+
+# ---------------------------------------------------------------- C02 emitters (impl ser::Serializer for &mut Serializer<F>)
+EM = "postcard/src/ser/serializer.rs::verif_emit"
+SER = "postcard::ser::serializer::<impl ser::Serializer for &mut Serializer<F>>::"
+for k, fs in [("u16", ["serialize_u16"]), ("u32", ["serialize_u32"]), ("u64", ["serialize_u64"]), ("u128", ["serialize_u128"]),
+              ("i16", ["serialize_i16"]), ("i32", ["serialize_i32"]), ("i64", ["serialize_i64"]), ("i128", ["serialize_i128"]),
+              ("raw", ["serialize_bool", "serialize_i8", "serialize_u8", "serialize_f32", "serialize_f64"]),
+              ("char", ["serialize_char"]),
+              ("option_unit_newtype", ["serialize_none", "serialize_some", "serialize_unit", "serialize_unit_struct", "serialize_newtype_struct"]),
+              ("variants", ["serialize_unit_variant", "serialize_newtype_variant", "serialize_tuple_variant", "serialize_struct_variant", "SerializeTupleVariant::*", "SerializeStructVariant::*"]),
+              ("compound", ["serialize_seq", "serialize_map", "serialize_tuple", "serialize_tuple_struct", "serialize_struct", "SerializeSeq::*", "SerializeMap::*", "SerializeTuple::*", "SerializeTupleStruct::*", "SerializeStruct::*"]),
+              ("buffer_full", ["(all emitters, zero-capacity storage)"])]:
+    K("C02.K.emit." + k, EM, "verif_emit::emit_" + k, {"C02": "D"} if k != "buffer_full" else {"C05": "D"}, fns=[SER + f for f in fs],
+      note="{out==pre} serialize_X(v) {out == pre ++ wire-format bytes of v}: full domain of the arguments")
+K("C02.K.emit.str_bytes", EM, "verif_emit::emit_str_bytes", {"C02": "D"}, label="bounded(len<=3)", fns=[SER + "serialize_str", SER + "serialize_bytes"],
+  note="varint(len) ++ bytes; symbolic contents")
+K("C02.K.seq_len_unknown", EM, "verif_emit::seq_len_unknown", {"C02": "D"}, fns=[SER + "serialize_seq", SER + "serialize_map"],
+  note="serialize_seq(None) / serialize_map(None) return Err")
+K("C02.K.seq_len_unknown_kind", EM, "verif_emit::seq_len_unknown_kind", {"C02": "S"}, fns=[SER + "serialize_seq"],
+  note="... the error is SerializeSeqLengthUnknown and nothing was written (stronger than the property)")
+K("C02.K.collect_str", EM, "verif_emit::emit_collect_str", {"C02": "D"}, label="bounded(2 pieces of <=2 bytes)", fns=[SER + "collect_str"],
+  note="collect_str(d) == varint(total formatted length) ++ formatted text, through core::fmt")
+
+# ---------------------------------------------------------------- C03 per-kind decoding through the public API; C04 totality
+C03M = "postcard/src/lib.rs::verif_c03"
+DES = "postcard::de::deserializer::<impl de::Deserializer for &mut Deserializer<F>>::"
+for k, fs, lab in [("bool_u8_i8", ["deserialize_bool", "deserialize_u8", "deserialize_i8"], "complete"),
+                   ("i16", ["deserialize_i16"], "complete"), ("i32", ["deserialize_i32"], "complete"),
+                   ("i64", ["deserialize_i64"], "complete"), ("i128", ["deserialize_i128"], "complete"),
+                   ("floats", ["deserialize_f32", "deserialize_f64"], "complete"),
+                   ("option", ["deserialize_option"], "complete"),
+                   ("str_bytes", ["deserialize_str", "deserialize_bytes"], "bounded(input<=5 bytes)"),
+                   ("char", ["deserialize_char"], "bounded(input<=6 bytes; a char needs at most 5)"),
+                   ("enum", ["deserialize_enum", "EnumAccess::variant_seed", "VariantAccess::*"], "bounded(input<=7 bytes; probe enum needs at most 7)")]:
+    K("C03.K.dec." + k, C03M, "verif_c03::dec_" + k, {"C03": "D"}, label=lab, needs=(REF, PROBES), fns=[DES + f for f in fs] + ["postcard::take_from_bytes"],
+      note="take_from_bytes on EVERY byte string up to the stated length: accept/reject, value, remainder, error kind == reference decoder")
+K("C03.K.dec.char_accepts_valid", C03M, "verif_c03::dec_char_accepts_valid", {"C03": "D"}, needs=(REF, PROBES), fns=[DES + "deserialize_char"],
+  note="every 1- and 2-byte scalar's encoding (+ any tail byte) is accepted and returns that scalar")
+for k, tier in [("enum", "quick"), ("tuple", "quick"), ("i64", "quick"), ("option", "quick"), ("struct", "thorough")]:
+    K("C03.K.prefix_eof." + k, C03M, "verif_c03::prefix_eof_" + k, {"C03": "D"}, needs=(REF, PROBES), tier=tier,
+      fns=["postcard::take_from_bytes"], note="every strict prefix of every valid message of the probe type fails with DeserializeUnexpectedEnd")
+DF = "postcard/src/de/flavors.rs::verif_deflavor"
+K("C03.K.flavor.slice", DF, "verif_deflavor::slice_contract", {"C03": "D", "C04": "D"},
+  fns=["postcard::de::flavors::Slice::new", "postcard::de::flavors::Slice::pop", "postcard::de::flavors::Slice::try_take_n", "postcard::de::flavors::Slice::finalize", "postcard::de::flavors::Slice::size_hint"],
+  note="Hoare triple over a symbolic window: pop / try_take_n(any ct) / finalize results, cursor movement, returned slices at the exact input address; every dereference checked by CBMC")
+C04M = "postcard/src/lib.rs::verif_c04"
+for k, lab in [("struct", "bounded(input<=18 = max encoding of the probe struct)"), ("borrowed", "bounded(input<=8)"), ("scalars", "complete"), ("seq", "bounded(input<=8)")]:
+    K("C04.K.total." + k, C04M, "verif_c04::total_" + k, {"C04": "D"}, label=lab, needs=(REF, PROBES),
+      fns=["postcard::take_from_bytes", "postcard::de::deserializer::*", "postcard::de::flavors::Slice::*"],
+      note="no panic / overflow / out-of-bounds access on every byte string; remainder and borrowed fields lie inside the input")
+DEC = "postcard/src/de/deserializer.rs::verif_c04d"
+K("C04.K.wont_implement", DEC, "verif_c04d::wont_implement", {"C04": "D"}, fns=[DES + "deserialize_any", DES + "deserialize_identifier", DES + "deserialize_ignored_any"],
+  note="refused with Err, no panic")
+K("C04.K.wont_implement_kind", DEC, "verif_c04d::wont_implement_kind", {"C04": "S"}, note="... kind is WontImplement and the input is untouched")
+K("C04.K.size_hint", DEC, "verif_c04d::seq_size_hint", {"C04": "D"}, fns=["postcard::de::deserializer::SeqAccess::size_hint"],
+  note="Some(h) ==> h <= bytes left, for every claimed length")
+K("C04.K.size_hint_exact", DEC, "verif_c04d::seq_size_hint_exact", {"C04": "S"}, note="Some(claimed) iff it fits")
